@@ -393,6 +393,13 @@ func newCustomizeSetup(w *World) (*Setup, *EnvBudget) {
 func C15Scenario() *Scenario {
 	return &Scenario{Prop: "C15", Init: func(w *World) {
 		t := w.T
+		if t.Pick(4, "family") == 3 {
+			// the waking clause: one related object changes at a time, at rest (the round
+			// structure of C14, related events only, also after the cached answer expired)
+			c14Composite(w, "C15", true)
+			w.Cfg["family"] = "related-object-wakes-parent"
+			return
+		}
 		s, b := newCustomizeSetup(w)
 		w.EnvOps = func(w *World) []EnvOp {
 			ops := RelatedOps(w, b)
